@@ -155,6 +155,24 @@ def run_case(case, tier):
     for name in run.rec["names"]:
         energy_mon.check_conformation(name, run.rec["confs"][name], viol, counts, classes)
     energy_mon.check_average(run.rec["confs"]["AVR"], viol, counts)
+    if len(run.rec["names"]) == 1:
+        # one conformation: what is reported (AVR) are that conformation's determinants, one by one - so the
+        # bounds hold for the reported rows too (two ions of one kind are two rows, not one double row)
+        from .c06 import has_twins
+        if not has_twins(recs):
+            c1, _ = obs.index_groups(run.rec["confs"][run.rec["names"][0]])
+            ca, _ = obs.index_groups(run.rec["confs"]["AVR"])
+            for k, g in ca.items():
+                h = c1.get(k)
+                if h is None:
+                    continue
+                counts["reported_rows_compared"] = counts.get("reported_rows_compared", 0) + 1
+                da, d1 = obs.det_multiset(g), obs.det_multiset(h)
+                bad = [kk for kk in set(da) | set(d1) if abs(da.get(kk, 0.0) - d1.get(kk, 0.0)) > 1e-9]
+                if bad:
+                    viol.append({"cls": "reported-determinants-differ-from-the-conformation", "msg": "%s: reported determinant towards %r is %r, the only conformation has %r" % (
+                        g["label"], bad[0], da.get(bad[0]), d1.get(bad[0]))})
+                    break
     if case["kind"] == "fragment" and not case["frag"].startswith("ion:"):
         conf = run.rec["confs"][run.rec["names"][0]]
         got = {g["aid"][5]: g["type"] for g in conf["groups"] if g["aid"][4].strip() == frag[0].resn.strip() and g["aid"][2] == 900}
